@@ -5,8 +5,10 @@ Ops (JSON):
   {"op":"def", "ty": <cls type node>}                   define a class family (nested definitions included)
   {"op":"defsub", "name": N, "base": B, "fields": [[name, tyname, default_src]]}   subclass of an existing class
   {"op":"bind", "cls": name, "kind": "load"|"dump", "meta": {...}}                 LoadMeta/DumpMeta(**meta).bind_to(cls)
-  {"op":"load", "cls": name, "doc": <json>}
-  {"op":"dump", "cls": name, "expr": <python expression building the instance in the family namespace>}
+  {"op":"load", "cls": name, "doc": <json>, "via": "fromdict"|"method"|"fromlist"|"method_list"|"json"|"json_list"}
+  {"op":"dump", "cls": name, "expr": <python expression building the instance in the family namespace>,
+                "via": "asdict"|"method"|"to_json"|"list_to_json"|"yaml"|"toml"}
+  {"op":"src", "src": <python source>, "defines": [names], "requires": [names]}   free-form definitions (subclasses, mixins, hooks)
   {"op":"dumpnew", ...}  as dump (kept distinct for statistics: a novel value subtype)
 """
 from __future__ import annotations
@@ -70,19 +72,44 @@ class World:
                 return ['defined']
             if k == 'bind':
                 cls = self.ns[op['cls']]
-                meta = dict(op['meta'])
+                meta = json.loads(json.dumps(op['meta']))
                 (LoadMeta if op['kind'] == 'load' else DumpMeta)(**meta).bind_to(cls)
                 return ['bound']
             if k == 'load':
                 cls = self.ns[op['cls']]
                 via = op.get('via', 'fromdict')
+                doc = json.loads(json.dumps(op['doc']))
                 if via == 'method':
-                    return ['ok', _canon_obj(cls.from_dict(json.loads(json.dumps(op['doc']))))]
-                return ['ok', _canon_obj(fromdict(cls, json.loads(json.dumps(op['doc']))))]
+                    return ['ok', _canon_obj(cls.from_dict(doc))]
+                if via == 'fromlist':
+                    from dataclass_wizard import fromlist
+                    return ['ok', _canon_obj(list(fromlist(cls, [doc, json.loads(json.dumps(doc))])))]
+                if via == 'method_list':
+                    return ['ok', _canon_obj(list(cls.from_list([doc])))]
+                if via == 'json':
+                    return ['ok', _canon_obj(cls.from_json(json.dumps(doc)))]
+                if via == 'json_list':
+                    return ['ok', _canon_obj(list(cls.from_json(json.dumps([doc]))))]
+                if via != 'fromdict':
+                    raise ValueError(via)
+                return ['ok', _canon_obj(fromdict(cls, doc))]
             if k in ('dump', 'dumpnew'):
                 x = eval(op['expr'], self.ns)
                 via = op.get('via', 'asdict')
-                d = x.to_dict() if via == 'method' else asdict(x)
+                if via == 'method':
+                    d = x.to_dict()
+                elif via == 'to_json':
+                    d = json.loads(x.to_json())
+                elif via == 'list_to_json':
+                    d = json.loads(type(x).list_to_json([x]))
+                elif via == 'yaml':
+                    d = ['text', x.to_yaml()]
+                elif via == 'toml':
+                    d = ['text', x.to_toml()]
+                elif via == 'asdict':
+                    d = asdict(x)
+                else:
+                    raise ValueError(via)
                 return ['ok', json.loads(json.dumps(d, default=repr))]
             raise ValueError(k)
         except Exception as e:
